@@ -56,16 +56,109 @@ def _assign_in(func, name, what):
     raise TranslateError("%s not found" % what)
 
 
-def _str_lists_compared_with(func, attr_owner=None):
-    """all literal lists/tuples of strings occurring as right operand of `in` / `not in` inside func, in source order"""
+def _assigned_value(name, func, tree):
+    """the expression assigned to `name`: in the function, else at class level, else at module level (last assignment)"""
+    scopes = []
+    if func is not None:
+        scopes.append(ast.walk(func))
+    scopes.append(n for c in ast.walk(tree) if isinstance(c, ast.ClassDef) for n in c.body)
+    scopes.append(iter(tree.body))
+    for scope in scopes:
+        found = None
+        for node in scope:
+            if isinstance(node, ast.Assign):
+                for t in node.targets:
+                    if isinstance(t, ast.Name) and t.id == name:
+                        found = node.value
+            elif isinstance(node, ast.AnnAssign) and isinstance(node.target, ast.Name) and node.target.id == name \
+                    and node.value is not None:
+                found = node.value
+        if found is not None:
+            return found
+    return None
+
+
+def _resolve(node, func, tree, depth=0):
+    """a constant collection of strings wherever and however it is written: a list/tuple/set display, frozenset(...)/
+    set(...)/tuple(...)/list(...) of one, a dict display (-> dict), or a name / self.attr / Class.attr bound to one of
+    these in the function, the class or the module.  None when the expression is not such a constant."""
+    if depth > 6 or node is None:
+        return None
+    if isinstance(node, (ast.List, ast.Tuple, ast.Set)):
+        if all(isinstance(e, ast.Constant) and isinstance(e.value, str) for e in node.elts):
+            return [e.value for e in node.elts]
+        return None
+    if isinstance(node, ast.Dict):
+        if all(isinstance(k, ast.Constant) and isinstance(k.value, str) for k in node.keys) and \
+                all(isinstance(v, ast.Constant) and isinstance(v.value, str) for v in node.values):
+            return {k.value: v.value for k, v in zip(node.keys, node.values)}
+        return None
+    if isinstance(node, ast.Call) and isinstance(node.func, ast.Name) and node.func.id in ("frozenset", "set", "tuple", "list", "dict") \
+            and len(node.args) == 1 and not node.keywords:
+        return _resolve(node.args[0], func, tree, depth + 1)
+    if isinstance(node, ast.Name):
+        return _resolve(_assigned_value(node.id, func, tree), func, tree, depth + 1)
+    if isinstance(node, ast.Attribute) and isinstance(node.value, ast.Name):
+        return _resolve(_assigned_value(node.attr, None, tree), func, tree, depth + 1)
+    return None
+
+
+def _memberships(func, tree):
+    """every test of an expression against a constant collection inside func, in source order:
+    (left expression as source text, collection).  Covers `x in C` / `x not in C` with C resolved by _resolve, and the
+    chains `x == "a" or x == "b"` / `x != "a" and x != "b"`."""
     res = []
     for node in ast.walk(func):
-        if isinstance(node, ast.Compare) and any(isinstance(o, (ast.In, ast.NotIn)) for o in node.ops):
-            for c in node.comparators:
-                if isinstance(c, (ast.List, ast.Tuple)) and all(isinstance(e, ast.Constant) and isinstance(e.value, str) for e in c.elts):
-                    res.append((node.lineno, node.col_offset, [e.value for e in c.elts]))
-    res.sort()
-    return [r[2] for r in res]
+        if isinstance(node, ast.Compare) and len(node.ops) == 1 and isinstance(node.ops[0], (ast.In, ast.NotIn)):
+            val = _resolve(node.comparators[0], func, tree)
+            if val is not None:
+                res.append((node.lineno, node.col_offset, ast.unparse(node.left), val))
+        elif isinstance(node, ast.BoolOp) and len(node.values) >= 2:
+            want = ast.Eq if isinstance(node.op, ast.Or) else ast.NotEq
+            if all(isinstance(v, ast.Compare) and len(v.ops) == 1 and isinstance(v.ops[0], want)
+                   and isinstance(v.comparators[0], ast.Constant) and isinstance(v.comparators[0].value, str) for v in node.values):
+                lefts = {ast.unparse(v.left) for v in node.values}
+                if len(lefts) == 1:
+                    res.append((node.lineno, node.col_offset, lefts.pop(), [v.comparators[0].value for v in node.values]))
+    res.sort(key=lambda r: (r[0], r[1]))
+    return [(r[2], r[3]) for r in res]
+
+
+def _tested(func, tree, left_pred, what, n=0, want_dict=False, has=None):
+    """the n-th constant collection (dict when want_dict; containing `has` when given) that an expression accepted by
+    left_pred is tested against"""
+    hits = [v for l, v in _memberships(func, tree) if left_pred(l) and isinstance(v, dict) == want_dict
+            and (has is None or has in v)]
+    if len(hits) <= n:
+        raise TranslateError("%s: expected at least %d membership test(s) against a constant %s, found %d — the test changed shape"
+                             % (what, n + 1, "dict" if want_dict else "collection", len(hits)))
+    return hits[n]
+
+
+def _dict_by_content(tree, pred, what):
+    """the one constant str->str dict display of the module (wherever it is defined or however it is used: `in`,
+    `.get`, subscript) that satisfies pred"""
+    hits = []
+    for node in ast.walk(tree):
+        if isinstance(node, ast.Dict):
+            d = _resolve(node, None, tree)
+            if isinstance(d, dict) and d and pred(d) and d not in hits:
+                hits.append(d)
+    if len(hits) != 1:
+        raise TranslateError("%s: expected exactly one constant dict of that content in the module, found %d" % (what, len(hits)))
+    return hits[0]
+
+
+def _members(v):
+    """a collection used for membership only: sorted and deduplicated (independent of list / tuple / set writing)"""
+    return sorted(set(v))
+
+
+def _str_lists_compared_with(func, tree=None):
+    """all constant collections of strings tested with `in` / `not in` (or ==-chains) inside func, in source order"""
+    if tree is None:
+        tree = ast.Module(body=[], type_ignores=[])
+    return [v for _, v in _memberships(func, tree) if not isinstance(v, dict)]
 
 
 def _eq_strings(func, var_pred):
@@ -89,9 +182,22 @@ def _return_lit(tree, cls, fn, path):
     for node in ast.walk(f):
         if isinstance(node, ast.Return) and node.value is not None:
             v = node.value
-            if isinstance(v, ast.Call) and isinstance(v.func, ast.Name) and v.func.id == "dict":
-                return {k.arg: _lit(k.value, "%s.%s" % (cls, fn)) for k in v.keywords}
-            return _lit(v, "%s.%s" % (cls, fn))
+            if isinstance(v, ast.Name) or (isinstance(v, ast.Attribute) and isinstance(v.value, ast.Name)):
+                v = _assigned_value(v.id if isinstance(v, ast.Name) else v.attr, f if isinstance(v, ast.Name) else None, tree) or v
+            if isinstance(v, ast.Call) and isinstance(v.func, ast.Name) and v.func.id == "dict" and v.keywords:
+                out = {}
+                for k in v.keywords:
+                    r = _resolve(k.value, f, tree)
+                    out[k.arg] = r if r is not None else _lit(k.value, "%s.%s" % (cls, fn))
+                return out
+            if isinstance(v, ast.Dict) and all(isinstance(k, ast.Constant) for k in v.keys):
+                out = {}
+                for k, x in zip(v.keys, v.values):
+                    r = _resolve(x, f, tree)
+                    out[k.value] = r if r is not None else _lit(x, "%s.%s" % (cls, fn))
+                return out
+            r = _resolve(v, f, tree)
+            return r if r is not None else _lit(v, "%s.%s" % (cls, fn))
     raise TranslateError("%s.%s has no literal return" % (cls, fn))
 
 
@@ -103,20 +209,19 @@ def _nth(lists, n, what):
     return lists[n]
 
 
-def _lemma_set_tested(func, what):
-    """the lemmas a `<x>.lemma in [..]` or `<x>.lemma == ".."` test of `func` accepts (first such test on `.lemma`)"""
+def _lemma_set_tested(func, tree, what):
+    """the lemmas a test on `<x>.lemma` accepts: `in <constant collection>` (any writing), an ==-chain, or a single =="""
+    for l, v in _memberships(func, tree):
+        if l.endswith(".lemma") and not isinstance(v, dict):
+            return v
     found = []
     for node in ast.walk(func):
-        if isinstance(node, ast.Compare) and len(node.ops) == 1 and isinstance(node.left, ast.Attribute) \
-                and node.left.attr == "lemma":
-            op, c = node.ops[0], node.comparators[0]
-            if isinstance(op, ast.In) and isinstance(c, (ast.List, ast.Tuple, ast.Set)) and \
-                    all(isinstance(e, ast.Constant) and isinstance(e.value, str) for e in c.elts):
-                found.append((node.lineno, node.col_offset, [e.value for e in c.elts]))
-            elif isinstance(op, ast.Eq) and isinstance(c, ast.Constant) and isinstance(c.value, str):
-                found.append((node.lineno, node.col_offset, [c.value]))
+        if isinstance(node, ast.Compare) and len(node.ops) == 1 and isinstance(node.ops[0], ast.Eq) \
+                and isinstance(node.left, ast.Attribute) and node.left.attr == "lemma" \
+                and isinstance(node.comparators[0], ast.Constant) and isinstance(node.comparators[0].value, str):
+            found.append((node.lineno, node.col_offset, [node.comparators[0].value]))
     if not found:
-        raise TranslateError("%s: no test of `.lemma` against a literal list or string found — the construct changed" % what)
+        raise TranslateError("%s: no test of `.lemma` against a constant collection or string found — the construct changed" % what)
     found.sort()
     return found[0][2]
 
@@ -218,14 +323,14 @@ def _extract(res):
     res["proTables"] = pro
     # --- ConstituentEn.py
     t5, p5 = _src("ConstituentEn.py")
-    de = _find_func(t5, "ConstituentEn", "doElision", p5)
-    ct = _assign_in(de, "contractionEnTable", "contractionEnTable")
+    ct = _dict_by_content(t5, lambda d: all("+" in k for k in d) and "do+not" in d,
+                          "ConstituentEn.py (English contraction table: keys `word+word`)")
     if not isinstance(ct, dict) or not all(isinstance(k, str) and isinstance(v, str) for k, v in ct.items()):
         raise TranslateError("contractionEnTable is not a dict of strings")
-    res["contractionEnTable"] = list(ct.items())
+    res["contractionEnTable"] = sorted(ct.items())
     res["tonicForms"] = sorted(_return_lit(t5, "ConstituentEn", "tonic_forms", p5))
     res["tonicPe1"] = _return_lit(t5, "ConstituentEn", "tonic_pe_1", p5)
-    res["relativePronouns"] = list(_return_lit(t5, "ConstituentEn", "relative_pronouns", p5))
+    res["relativePronouns"] = sorted(_return_lit(t5, "ConstituentEn", "relative_pronouns", p5))
     # --- PhraseEn.py / DependentEn.py
     t, p = _src("PhraseEn.py")
     # `preposition_list` lives in PhraseEn, or (once shared with the dependency notation) in the NonTerminalEn mixin
@@ -237,33 +342,36 @@ def _extract(res):
     res["prepositionList"] = {k: sorted(v) for k, v in pl.items()}
     # --- NonTerminalEn.py
     tb, pb = _src("NonTerminalEn.py")
-    neg = None
-    for node in tb.body:
-        if isinstance(node, ast.Assign) and isinstance(node.targets[0], ast.Name) and node.targets[0].id == "negMod":
-            neg = _lit(node.value, "negMod")
-    if not isinstance(neg, dict):
-        raise TranslateError("negMod not found in NonTerminalEn.py")
-    res["negMod"] = list(neg.items())
     ah = _find_func(tb, "NonTerminalEn", "affixHopping", pb)
-    lists = _str_lists_compared_with(ah)
-    res["affixLists"] = lists            # [noDoInt, nonFiniteNoDo, nonFiniteNeg]
-    if len(lists) != 3:
-        raise TranslateError("affixHopping: expected 3 literal `in` lists, found %d" % len(lists))
+    neg = _dict_by_content(tb, lambda d: d.get("can") == "cannot",
+                           "NonTerminalEn.py (negated modals: dict with can -> cannot)")
+    res["negMod"] = sorted(neg.items())
+    # [interrogatives without do-support; tenses without do-support; tenses with the special negation]
+    res["affixLists"] = [
+        _members(_tested(ah, tb, lambda l: l == "interro", "NonTerminalEn.affixHopping (interrogatives without do-support)")),
+        _members(_tested(ah, tb, lambda l: l == "t", "NonTerminalEn.affixHopping (tenses without do-support)", n=0, has="pp")),
+        _members(_tested(ah, tb, lambda l: l == "t", "NonTerminalEn.affixHopping (tenses with the special negation)", n=1, has="pp"))]
 
     def is_lemma_or_vaux(e):
         return (isinstance(e, ast.Attribute) and e.attr == "lemma") or (isinstance(e, ast.Name) and e.id == "vAux")
     res["affixLemmas"] = _eq_strings(ah, is_lemma_or_vaux)     # be, have, can, do (order of first occurrence)
     cap = _find_func(tb, "NonTerminalEn", "checkAdverbPos", pb)
-    res["adverbAux"] = max(_str_lists_compared_with(cap) + [[]], key=len)
+    res["adverbAux"] = _members(max(_str_lists_compared_with(cap, tb) + [[]], key=len))
     for call in ast.walk(cap):
         if isinstance(call, ast.Call) and isinstance(call.func, ast.Name) and call.func.id == "moveAfterAux" and call.args:
-            res["adverbAux"] = _lit(call.args[0], "moveAfterAux argument")
+            r = _resolve(call.args[0], cap, tb)
+            if r is None:
+                raise TranslateError("NonTerminalEn.checkAdverbPos: the argument of moveAfterAux is no longer a constant collection")
+            res["adverbAux"] = _members(r)
     pho = _find_func(tb, "NonTerminalEn", "passive_human_object", pb)
-    res["passiveHumanGenders"] = max(_str_lists_compared_with(pho) + [[]], key=len)
+    res["passiveHumanGenders"] = _members(_tested(pho, tb, lambda l: "getProp('g')" in l,
+                                                  "NonTerminalEn.passive_human_object (genders of a human object)"))
     tq = _find_func(t, "PhraseEn", "tag_question", p)
-    res["tagAuxPhrase"] = _nth(_str_lists_compared_with(tq), 0, "PhraseEn.tag_question (lemmas that are their own tag auxiliary)")
+    res["tagAuxPhrase"] = _members(_tested(tq, t, lambda l: l == "currV.lemma",
+                                           "PhraseEn.tag_question (lemmas that are their own tag auxiliary)"))
     mo = _find_func(t, "PhraseEn", "move_object", p)
-    res["moveObjectNoMoveTensesPhrase"] = _nth(_str_lists_compared_with(mo), 0, "PhraseEn.move_object (tenses that do not invert)")
+    res["moveObjectNoMoveTensesPhrase"] = _members(_tested(mo, t, lambda l: "getProp('t')" in l,
+                                                           "PhraseEn.move_object (tenses that do not invert)"))
     pops = [c for c in ast.walk(mo) if isinstance(c, ast.Call) and isinstance(c.func, ast.Attribute) and c.func.attr == "pop"]
     if len(pops) != 1 or len(pops[0].args) != 1:
         raise TranslateError("PhraseEn.move_object: the pop call changed")
@@ -273,11 +381,13 @@ def _extract(res):
     res["depHasPrepositionList"] = _has_func(t2, "DependentEn", "preposition_list") or \
         _has_func(tn, "NonTerminalEn", "preposition_list")
     tq2 = _find_func(t2, "DependentEn", "tag_question", p2)
-    res["tagAuxDep"] = _nth(_str_lists_compared_with(tq2), 0, "DependentEn.tag_question (lemmas that are their own tag auxiliary)")
+    res["tagAuxDep"] = _members(_tested(tq2, t2, lambda l: l == "currV.lemma",
+                                        "DependentEn.tag_question (lemmas that are their own tag auxiliary)"))
     mo2 = _find_func(t2, "DependentEn", "move_object", p2)
-    res["moveObjectNoMoveTensesDep"] = _nth(_str_lists_compared_with(mo2), 0, "DependentEn.move_object (tenses that do not invert)")
+    res["moveObjectNoMoveTensesDep"] = _members(_tested(mo2, t2, lambda l: "getProp('t')" in l,
+                                                        "DependentEn.move_object (tenses that do not invert)"))
     # the "no auxiliary" inversion branch: `self.terminal.lemma in ["be", "have"]` (a list or a single string)
-    res["moveObjectAloneDep"] = _lemma_set_tested(mo2, "DependentEn.move_object (verbs inverted without auxiliary)")
+    res["moveObjectAloneDep"] = _members(_lemma_set_tested(mo2, t2, "DependentEn.move_object (verbs inverted without auxiliary)"))
     # --- Phrase.py: is the builtin `int` passed to passive_human_object ?
     t3, p3 = _src("Phrase.py")
     pi = _find_func(t3, "Phrase", "processInt", p3)
@@ -288,10 +398,12 @@ def _extract(res):
     if arg is None:
         raise TranslateError("Phrase.processInt: call of passive_human_object not found")
     res["phraseHumanObjectGetsIntValue"] = (arg != "int")
-    res["intGroupsPhrase"] = [l for l in _str_lists_compared_with(pi) if l and l[0] in ("yon", "wos", "wod", "woi")]
+    res["intGroupsPhrase"] = sorted(_members(l) for l in _str_lists_compared_with(pi, t3)
+                                    if set(l) & {"yon", "wos", "wod", "woi"})
     t4, p4 = _src("Dependent.py")
     di = _find_func(t4, "Dependent", "processTypInt", p4)
-    res["intGroupsDep"] = [l for l in _str_lists_compared_with(di) if l and l[0] in ("yon", "wos", "wod", "woi")]
+    res["intGroupsDep"] = sorted(_members(l) for l in _str_lists_compared_with(di, t4)
+                                 if set(l) & {"yon", "wos", "wod", "woi"})
     arg = None
     for c in ast.walk(di):
         if isinstance(c, ast.Call) and isinstance(c.func, ast.Attribute) and c.func.attr == "passive_human_object":
